@@ -112,6 +112,13 @@ class Evidence:
         self.d = {"property_id": pid, "tier": tier, "seed": seed, "level": level,
                   "coverage": {}, "assumptions": [], "wall_s": 0.0, "violations": 0}
         self.t0 = time.time()
+        # counterexample files of earlier runs of this property are stale
+        rd = os.path.join(EVID, "replay")
+        if os.path.isdir(rd):
+            for f in os.listdir(rd):
+                if f.startswith(pid + "-"):
+                    try: os.remove(os.path.join(rd, f))
+                    except OSError: pass
 
     def cov(self, **kw):
         self.d["coverage"].update(kw)
